@@ -99,8 +99,10 @@ def overlap_cases(only=None):
     import uberjob
     from uberjob.stores import PickleFileStore
     viol, done = [], 0
-    for pathlib_paths in (False, True):
-        for names in (("features.train", "features.test"), ("part.a.bin", "part.b.bin"), ("x", "x.bak")):
+    for pathlib_paths, names, rnd in [(pl, nm, r) for pl in (False, True)
+                                      for nm in (("features.train", "features.test"), ("part.a.bin", "part.b.bin"), ("x", "x.bak"))
+                                      for r in range(6)]:       # which writer finishes first is up to the threads: six rounds each
+        if True:
             case = [pathlib_paths, list(names)]
             if only is not None and case != only:
                 continue
